@@ -366,7 +366,34 @@ class Checker:
                     self.result["inconclusive"].append(what + " (z3 answered %s)" % r)
                     continue
                 text = z3str(m.eval(w, model_completion=True))
+                pair = self.cross_values(paths[i], paths[j])
+                if pair is not None:   # two paths of one kind (e.g. two orders of the same members): ask for the two values directly
+                    self.report(group, what, pair[0], pair[1])
+                    continue
                 self.report(group, what + ": %r" % text, rebuild(paths[i], text), rebuild(paths[j], text))
+
+    def cross_values(self, p, q):
+        """For two paths that print the same skeleton (same literals, same token kinds) over the same leaves: two different values,
+        one on each path, whose tokens agree pairwise — as replay specs — or None."""
+        if p.label != q.label or [n for n, _ in p.leaves] != [n for n, _ in q.leaves] or len(p.tokens) != len(q.tokens):
+            return None
+        if any(x[0] != y[0] or (x[0] == "lit" and x[1] != y[1]) or (x[0] != "lit" and x[0] != "item" and x[2] != y[2]) for x, y in zip(p.tokens, q.tokens)):
+            return None
+        if any(x[0] == "item" for x in p.tokens):
+            return None
+        sub = [(t, z3.Const("b_" + str(t), t.sort())) for _, t in q.leaves]
+        other = lambda e: z3.substitute(e, *sub)
+        cs = list(p.pc) + [other(c) for c in q.pc]
+        for x, y in zip(p.tokens, q.tokens):
+            if x[0] != "lit":
+                cs.append(x[1].t == other(y[1].t))
+        cs.append(z3.Or([a != b for (_, a), (_, b) in zip(p.leaves, sub)]))
+        r, m = self.solve(cs)
+        if r != z3.sat:
+            return None
+        a_spec = item_spec(p, {n: m.eval(t, model_completion=True) for n, t in p.leaves})
+        b_spec = item_spec(q, {n: m.eval(bt, model_completion=True) for (n, _), (_, bt) in zip(q.leaves, sub)})
+        return a_spec, b_spec
 
     def report(self, group, what, a, b):
         """a, b: replay specs (or None when the solver's strings could not be turned back into values)."""
